@@ -373,7 +373,7 @@ pub fn run(ctx: &RunCtx) -> i32 {
         let sized = sized_secrets(ctx.seed, k);
         renderings(&mut total, &sized[AK], &needles(&sized[AK]));
     }
-    let n = ctx.tier.sz(2400, 120_000);
+    let n = ctx.tier.sz(8000, 600_000);
     let per = 20u64;
     let rep = par_run(ctx.workers, n.div_ceil(per), |j, r| {
         let rt = new_runtime();
